@@ -187,6 +187,14 @@ Proof.
   apply IH. apply sched_step_sound. exact Hs.
 Qed.
 
+Lemma run_conc_stable : forall callss sched st (P : sys -> Prop),
+  sinv callss st -> stable P -> P (snd st) -> P (snd (run_conc H sched st)).
+Proof.
+  intros callss sched. induction sched as [|e t IH]; intros st P Hs Hst Hp; cbn; [exact Hp|].
+  destruct (sched_step_sound callss e st Hs) as [Hs' Hg].
+  apply (IH (sched_step H e st) P Hs' Hst). eapply Hst; [apply Hs|exact Hp|exact Hg].
+Qed.
+
 Lemma sinv_init : forall callss s, J s -> Forall (Forall call_ok) callss -> sinv callss (map (start H) callss, s).
 Proof.
   intros callss s Js Hok. split; [exact Js|]. cbn [fst snd].
